@@ -382,6 +382,73 @@ func (x *c10Run) crashPoints(env *Env, l0, l1 int, prev *c10Committed, cur *c10C
 	}
 }
 
+// replayBlock applies the recorded steps of one block exactly as the main line did and returns
+// the roots of the block's IntermediateRoot.
+func (x *c10Run) replayBlock(st *state.StateDB, blk *c10Block, who string) [3]common.Hash {
+	if blk.reset {
+		st.ResetStakingTrie()
+	}
+	for _, seg := range blk.segs {
+		if !seg.isEnd {
+			st.Prepare(seg.thash, blk.bhash, seg.txi)
+		}
+		for _, op := range seg.ops {
+			x.apply(st, op, who)
+		}
+		if seg.end != "block" {
+			x.boundary(st, seg.end, who)
+		}
+	}
+	h0, h1, h2 := st.IntermediateRoot(true)
+	x.stacks[st] = nil
+	return [3]common.Hash{h0, h1, h2}
+}
+
+// recoverAfterCrash: the process died after disk write k of the commit window; a new process
+// opens the last committed triple on the surviving image, imports the same blocks again and
+// commits over whatever the crashed commit left behind. The result must be the committed content.
+func (x *c10Run) recoverAfterCrash(env *Env, k int, prev *c10Committed, blocks []*c10Block, cur *c10Committed, where string) {
+	r := x.r
+	e2 := &Env{Disk: env.Disk.Prefix(k)}
+	e2.DB = state.NewDatabase(e2.Disk)
+	roots := [3]common.Hash{}
+	if prev != nil {
+		roots = prev.roots
+	}
+	st, err := state.New(roots[0], roots[1], roots[2], e2.DB)
+	if err != nil {
+		r.Report("crash-loses-previous-state", "%s: after a crash at disk write %d the previously committed triple cannot be opened: %v", where, k, err)
+		return
+	}
+	r.Logf("  recover: crash after disk write %d, re-import of %d block(s) on the surviving image", k, len(blocks))
+	var got [3]common.Hash
+	for _, blk := range blocks {
+		got = x.replayBlock(st, blk, "  recover: ")
+	}
+	if got != cur.roots {
+		r.Report("recover-root-mismatch", "%s: re-import after a crash at disk write %d gives roots %s/%s/%s, the crashed process had %s/%s/%s", where, k,
+			nm(got[0]), nm(got[1]), nm(got[2]), nm(cur.roots[0]), nm(cur.roots[1]), nm(cur.roots[2]))
+		return
+	}
+	r0, r1, r2, err := st.Commit(true)
+	if err != nil {
+		r.Report("commit-error", "  recover: Commit: %v", err)
+		return
+	}
+	for _, h := range []common.Hash{r0, r1, r2} {
+		if err := e2.DB.TrieDB().Commit(h, false); err != nil {
+			r.Report("commit-error", "  recover: TrieDB.Commit: %v", err)
+			return
+		}
+	}
+	raw := rawDump(state.NewDatabase(e2.Disk.Restart()), cur.roots)
+	if d := Diff(cur.raw, raw); len(d) > 0 {
+		r.Report("recover-incomplete:"+rawKind(d), "%s: after a crash at disk write %d, re-import and commit, the durable image does not serve the committed content:%s", where, k, describeDiff(cur.raw, raw, d))
+		return
+	}
+	r.Fault("crash.recovered-by-reimport")
+}
+
 // ---- the run ----
 
 type c10Follower struct {
@@ -407,6 +474,7 @@ func runC10(r *kit.Run) {
 	copySeg := c.Intn("copy-seg", 3)  // which transaction of the block
 	copySame := c.Chance("copy-same-ops", 1, 2)
 	var plan []*c10Block
+	var sinceCommit []*c10Block // blocks executed since the last commit (to re-import after a crash)
 	var prev *c10Committed
 	var follower *c10Follower
 	reopened := false // st was just opened from roots (so a reset may be done by opening with an empty staking root)
@@ -415,6 +483,7 @@ func runC10(r *kit.Run) {
 	for b := 0; b < nBlocks; b++ {
 		blk := &c10Block{height: uint64(b + 1), bhash: common.BigToHash(big.NewInt(int64(1000 + b)))}
 		plan = append(plan, blk)
+		sinceCommit = append(sinceCommit, blk)
 		m.height = blk.height
 		if b > 0 && c.Chance("new-staking-period", 1, 4) {
 			blk.reset = true
@@ -602,6 +671,10 @@ func runC10(r *kit.Run) {
 		cur := &c10Committed{roots: roots, raw: raw}
 		// fault enumeration: every crash point of the commit window
 		x.crashPoints(env, l0, l1, prev, cur, where)
+		if l1 > l0 && c.Chance("recover-after-crash", 1, 3) {
+			x.recoverAfterCrash(env, l0+c.Intn("crash-at", l1-l0), prev, sinceCommit, cur, where)
+		}
+		sinceCommit = nil
 		prev = cur
 		// a copy of the committed object
 		var after *state.StateDB
@@ -665,6 +738,13 @@ func (x *c10Run) takeCopy(st *state.StateDB, where string) (*state.StateDB, Obs)
 	r.Fault("copy")
 	r.Logf("Copy %s", where)
 	r.FP("copy")
+	if r.C.Chance("copy-of-copy", 1, 3) {
+		// miner/worker.go:530: pending() hands out a copy of the snapshot copy
+		cp = cp.Copy()
+		r.Logf("Copy of that copy")
+		r.FP("copy-of-copy")
+		r.Probe("copy-of-copy")
+	}
 	got, ok := x.observe(cp, true, "copy-read-panic", "copy taken "+where)
 	if !ok {
 		r.Logf("copy dropped")
